@@ -33,7 +33,7 @@ CHECKS = {
     "C14": K("TestC14(A|Hooks)", quick=80, thorough=800),
     "C15": K("TestC15", quick=400, thorough=5000),
     "C16": K("TestC16", quick=400, thorough=4000),
-    "C17": K("TestC17(H|W|D)?", quick=1500, thorough=15000, level="fault_enumeration", qenv={"VERIF_A_LIMIT": 150}, tenv={"VERIF_A_LIMIT": 1500}),
+    "C17": K("TestC17(H|W|D)?", quick=1500, thorough=10000, level="fault_enumeration", qenv={"VERIF_A_LIMIT": 150}, tenv={"VERIF_A_LIMIT": 1500}),
     "C18": K("TestC18(K|A)", quick=900, thorough=4000, qenv={"VERIF_A_LIMIT": 100}, tenv={"VERIF_A_LIMIT": 800}),
     "C19": K("TestC19", quick=500, thorough=5000),
     "C20": K("TestC20(Binary|Chain)?", quick=150, thorough=1200, pkg="cli"),
